@@ -225,10 +225,29 @@ pub fn run(rep: &mut Report, driver: &str, workers: usize, thorough: bool, seed:
         seqs.push((0..n).map(|_| atoms[rng.below(atoms.len())].clone()).collect());
     }
     // long histories: whatever indexes, sorts or pages the accepted names must stay exact at every size
-    let big = 40usize;
+    let big = 70usize;
     let rn = |i: usize| format!("rule {}", i);
     let fnn = |i: usize| format!("fn_{}", i);
-    for k in [0usize, 15, 30, 31, 32, 33, 39] {
+    // after every number n of accepted names, a duplicate of the first, the last, the one before and a middle one:
+    // an index / sorted table / filter that is built or switched at some size misses exactly the name added there
+    for n in 1..=big {
+        let mut ks = vec![0usize, n - 1, n.saturating_sub(2), n / 2];
+        ks.dedup();
+        for k in ks {
+            let mut h: Vec<Op> = (0..n).map(|i| Op::Rule(rn(i))).collect();
+            h.push(Op::Rule(rn(k)));
+            seqs.push(h);
+            let mut h: Vec<Op> = (0..n).map(|i| Op::Fn(fnn((i * 7) % big))).collect();
+            h.push(Op::Fn(fnn((k * 7) % big)));
+            seqs.push(h);
+            if n % 8 == 1 || n == 17 || n == 33 || n == 65 {
+                let mut h: Vec<Op> = (0..n).map(|i| Op::Rule(rn(i))).collect();
+                h.push(Op::Rules(vec![rn(n), rn(k)]));
+                seqs.push(h);
+            }
+        }
+    }
+    for k in 0..big {
         let mut h: Vec<Op> = (0..big).map(|i| Op::Rule(rn(i))).collect();
         h.push(Op::Rule(rn(k)));
         seqs.push(h);
@@ -303,7 +322,7 @@ pub fn run(rep: &mut Report, driver: &str, workers: usize, thorough: bool, seed:
     let replies = par_batch(driver, workers, &reqs);
     let mut sr = StreamReport::new(
         "builder-histories",
-        "every sequence of <= 3 (thorough 4) builder calls over 17 atoms (with_rule x3 names, with_rules batches incl. an inner duplicate, with_function x4 names incl. a reserved word and a leading underscore, with_functions batches incl. an inner duplicate, with_symbol / with_symbols incl. re-registration) exhaustively, random longer ones; long histories (40 rules / functions one by one and in batches followed by a duplicate of the 1st, 16th, 31st–34th and 40th name; 40 symbols in scattered / descending order one by one, through `Symbols::from` and through `Symbols::append`); then every candidate function name (all 38 reserved words and their near-misses, identifiers, leading digit, `_` + every ASCII punctuation/space, embedded space/dash, empty, non-ASCII XID_Start / XID_Continue-only / neither) through with_function and with_functions. Observed: Ok/Err and the name in the error of every call; the built ruleset evaluated with probe rules (accepted rules in order via Outcome.rule.name(), each function invocable under its own name, each symbol's value)",
+        "every sequence of <= 3 (thorough 4) builder calls over 17 atoms (with_rule x3 names, with_rules batches incl. an inner duplicate, with_function x4 names incl. a reserved word and a leading underscore, with_functions batches incl. an inner duplicate, with_symbol / with_symbols incl. re-registration) exhaustively, random longer ones; long histories (after every number n ≤ 70 of accepted rules / functions a duplicate of the first, last, last-but-one and middle name; 70 rules / functions one by one and in batches followed by a duplicate of each of the 70 names; 40 symbols in scattered / descending order one by one, through `Symbols::from` and through `Symbols::append`); then every candidate function name (all 38 reserved words and their near-misses, identifiers, leading digit, `_` + every ASCII punctuation/space, embedded space/dash, empty, non-ASCII XID_Start / XID_Continue-only / neither) through with_function and with_functions. Observed: Ok/Err and the name in the error of every call; the built ruleset evaluated with probe rules (accepted rules in order via Outcome.rule.name(), each function invocable under its own name, each symbol's value)",
         false,
     );
     for (i, ops) in seqs.iter().enumerate() {
